@@ -593,6 +593,7 @@ def run(chk):
     plan.append(("stale-handle stream (malformed use after sweep and reuse)", [finish_history(h, count_handles(h)) for h in st]))
 
     streams = {}
+    streams_h = {}
     total_h = 0
     for name, hs in plan:
         if not hs:
@@ -602,9 +603,51 @@ def run(chk):
             chk.violation({"stream": name, "what": err})
             continue
         judge(chk, hs, ri, rm, rg, stats, name)
+        streams_h[name] = hs
         streams[name] = {"histories": len(hs), "operations": sum(len(h) for h in hs)}
         total_h += len(hs)
         chk.samples.append({"stream": name, "history": hs[len(hs) // 2][:40]})
+    # ---- memcheck: handles and guards that outlive their heap (clone / drop / guard operations only; a
+    # dereference after the heap is gone is known class K2 and is not executed by the harness) ----------------
+    if not chk.replay:
+        vg = [
+            ["CG", "A 0", "C 0", "DH", "C 0", "C 1", "D 0", "D 1", "D 2", "D 3"],
+            ["CG"] + ["A 0"] * 300 + ["DG 0", "DH"] + ["C %d" % i for i in range(0, 300, 7)] + ["D %d" % i for i in range(0, 343)],
+            ["CG", "A 0", "A 0", "A 0", "L 0 1", "L 1 2", "L 2 0", "DH", "C 1", "D 0", "D 2", "D 1", "D 3"],
+            ["CG", "CG", "A 0", "A 1", "GC 1 0", "DH", "C 0", "GC 0 1", "UG 1 0", "CL 0", "DG 0", "DG 1", "D 0", "D 1", "D 2"],
+            ["CG", "A 0", "A 0", "D 0", "COL", "A 0", "DH", "C 1", "C 2", "D 1", "D 2", "D 3", "D 4", "DG 0"],
+        ]
+        for hs in [h for name, h in streams_h.items()][:3]:
+            vg += [h for h in hs if "DH" in h][:12 if chk.tier == "quick" else 120]
+        d = os.path.join(common.OUT, PID)
+        cf, oi = os.path.join(d, "vg.ops"), os.path.join(d, "vg.impl")
+
+        def memcheck(hlist):
+            with open(cf, "w") as f:
+                for ops in hlist:
+                    f.write("NEW\n" + "\n".join(ops) + "\n")
+            rc, out = common.sh(["valgrind", "-q", "--error-exitcode=97", "--leak-check=no", "--num-callers=10", chk.th, "gc", cf, oi], timeout=1800)
+            for pth in (cf, oi):
+                if os.path.exists(pth):
+                    os.remove(pth)
+            return rc, out
+        rc, out = memcheck(vg)
+        stats["memcheck_histories"] = len(vg)
+        if rc == 127 or "valgrind: not found" in out or "No such file" in out[:200]:
+            raise common.FrameworkError("valgrind is required for the C13 memcheck stream: " + out[-200:])
+        if rc != 0:
+            # find one history that is enough
+            bad = vg
+            while len(bad) > 1:
+                half = bad[:len(bad) // 2]
+                r1, o1 = memcheck(half)
+                if r1 != 0:
+                    bad, out = half, o1
+                else:
+                    bad = bad[len(bad) // 2:]
+            r1, o1 = memcheck(bad)
+            chk.violation({"stream": "memcheck", "history": bad[0], "what": "valgrind memcheck reports an invalid access (or the process died) on "
+                           "a history whose handles / guards outlive the heap", "valgrind": (o1 if r1 != 0 else out)[-1500:]})
     if stats["k2"]:
         e = next((e for e in chk.known if e["class"] == "K2-deref-after-heap-drop"), None)
         if e:
